@@ -57,17 +57,22 @@ def inst(ns, nr, ties):
 
 def spaces(tier):
     out = []
+    fn_ok = cs.fn_api_ok()
+    abs_ok = cs.matching_api_ok()
     small = [(1, 1), (1, 2), (2, 1), (2, 2), (1, 3), (3, 1), (2, 3), (3, 2)]
     for ns, nr in small:
-        out.append(inst(ns, nr, True))
+        if abs_ok:
+            out.append(inst(ns, nr, True))
     if tier == 'quick':
-        out.append(inst(3, 3, False))
-        out += [cs.fn_space(L) for L in range(4, 10)]
+        if abs_ok:
+            out.append(inst(3, 3, False))
+        out += [cs.fn_space(L) for L in range(4, 10) if fn_ok]
         for n in (5, 6, 7):
             out.append(cs.db_space(n, cs.COMBOS[n % 4], 0, binary=True))
     else:
-        out.append(inst(3, 3, True))
-        out += [cs.fn_space(L) for L in range(4, 12)]
+        if abs_ok:
+            out.append(inst(3, 3, True))
+        out += [cs.fn_space(L) for L in range(4, 12) if fn_ok]
         for n in (5, 6, 7, 8, 9):
             out.append(cs.db_space(n, cs.COMBOS[n % 4], 0, binary=True))
     return out
